@@ -18,22 +18,35 @@ RULE = ("for every class with a hand-written __eq__/__hash__ (52 constructors in
         "instances are generated from JSON descriptions through the public constructors (each optional parameter omitted "
         "with p~0.3, all omitted with p=0.2; reals on a 1/16 grid, short decimals, arbitrary doubles and 10^3..10^5 magnitudes; "
         "id sets with members k, k+8, k+16 that collide in CPython's set tables); one case = one instance with its battery: "
-        "itself, deepcopy, an independently built twin, every set/dict insertion order permuted, and EVERY constructor "
-        "parameter changed alone to another valid value (reals by 1.7e-10 .. 1), plus correspondence-only probes (2e-11 "
-        "shifts, None vs empty container, reversed lists, shifted trajectory); non-trivial = every case (>= 1 perturbed pair); "
-        "distinct = distinct canonical JSON of the instance description")
+        "itself, deepcopy, an independently built twin, every set/dict insertion order permuted (all sets at all depths at "
+        "once), and EVERY constructor parameter changed alone to another valid value (reals by 1.7e-10 .. 1), plus "
+        "correspondence-only probes (2e-11 shifts, None vs empty container, reversed lists, shifted trajectory) and, for the "
+        "hashability model, 3 ill-typed probes per instance (one constructor argument replaced by None / [1] / [[1]] / "
+        "{'k': [1]} where the constructor accepts it); non-trivial = every case (>= 1 perturbed pair); distinct = distinct "
+        "canonical JSON of the instance description")
 ASSUMPTIONS = [
     "Python's hash of tuple/frozenset/str/int/float/None/Enum is a function of the ==-class of its argument and collides on "
-    "unequal arguments only with negligible probability (generators avoid the systematic collisions hash(-1)==hash(-2))",
+    "unequal arguments only with negligible probability (generators avoid the systematic collisions hash(-1)==hash(-2), hash('')==hash(0))",
     "np.around(x, 10) / round(x, 10) put two doubles that differ by more than 1.5e-10 (|x| <= 1e5) into different buckets and "
     "leave a double with <= 4 decimals and the same double + 2e-11 in one bucket (the model rounds the exact rational)",
-    "copy.deepcopy reproduces every attribute value; set/dict semantics of CPython",
+    "copy.deepcopy reproduces every attribute value (x == deepcopy(x) is C12_eq_refl plus this; exercised on every instance); "
+    "set/dict semantics of CPython",
+    "which outermost forms make hash(), tuple(), frozenset(), dict.items(), json.dumps, str and np.asarray(..).astype(float) raise "
+    "is the table `step` of CRModel/HashKey.lean (tabulated against CPython/numpy; compared with the real hash() on every "
+    "generated instance and every ill-typed probe); the elements of an ndarray are not represented (iterating one is "
+    "modelled as a failure, which no builder of the tables does); a numeric string under convArr counts as a failure",
+    "admitted attribute types (`hrow`) describe what the public constructors store for valid arguments, None defaults "
+    "included; every generated instance is checked to be well-typed in the model",
     "kwargs-only extension attributes of TrajectoryPrediction / DynamicObstacle (**kwargs) are not constructor parameters of the property",
+    "not demanded: order of list-valued attributes that the code compares as sets; None vs the empty container as a "
+    "constructor-visible difference (several classes document None as 'no ids')",
 ]
-TRUSTED = ["harness/c12_specs.py: JSON description -> object builders and the getter-based encoder that feeds the model"]
+TRUSTED = ["harness/c12_specs.py: JSON description -> object builders and the two getter-based encoders (untyped for ==/hash "
+           "agreement, typed for hashability) that feed the model"]
 REQUIRED_BUCKETS = ["cls:" + c for c in S.CLASSES] + ["pair:self", "pair:deepcopy", "pair:twin", "pair:permuted", "pair:perturbed",
                                                         "defaults-only", "probe:sub-threshold", "probe:none-vs-empty",
-                                                        "probe:reversed-list", "table-row"]
+                                                        "probe:reversed-list", "table-row", "hash:well-typed",
+                                                        "illtyped:raises", "illtyped:completes"]
 WORKERS = {"quick": 4, "thorough": 8}
 
 QUICK_PER_CLASS = 48
@@ -73,6 +86,22 @@ def tables(ctx):
     if not _TABLES:
         _TABLES.update(ctx.driver.ask("C12", "tables", {}))
     return _TABLES
+
+
+_CTORS = []
+
+
+def ctors(ctx):
+    if not _CTORS:
+        _CTORS.extend(ctx.driver.ask("C12", "ctors", {}))
+    return _CTORS
+
+
+def model_hash_ok(ctx, typed):
+    """[typed encoding] -> [{"typed": bool, "ok": bool}]: is the instance well-typed, does hash() complete (Lean model)"""
+    if not typed:
+        return []
+    return ctx.driver.ask("C12", "hash_ok", {"vs": typed})
 
 
 def model_pairs(ctx, pairs):
@@ -221,6 +250,7 @@ def run_case(ctx, dx, only=None):
         obs.append(ob)
         enc_pairs.append((ex, S.encode(y)))
         oracle_pair(ctx, cls, dx, dy, x, y, ob, kind, attr, demand)
+    hash_correspondence(ctx, cls, dx, x, objs, obs, only)
     # correspondence: the model's verdicts for == and for "hash keys agree" on the same pairs
     model = model_pairs(ctx, enc_pairs)
     for (kind, y, dy, attr, demand), ob, mv in zip(objs, obs, model):
@@ -233,6 +263,43 @@ def run_case(ctx, dx, only=None):
             row["n"] += 1
             row["eq"] = row["eq"] or impl["eq"] is False
             row["hash"] = row["hash"] or impl["hash"] is False
+
+
+def hash_correspondence(ctx, cls, dx, x, objs, obs, only):
+    """hashability model: every object of the battery must be well-typed in the model (ties the admitted-type tables to
+    what the public constructors produce) and `hash()` raises exactly when the model says the hashed tuple cannot be built
+    or hashed; plus ill-typed probes, on which only the raise / complete verdict is compared."""
+    typed, impl, subs = [], [], []
+    for (kind, y, dy, attr, demand), ob in zip(objs, obs):
+        if kind == "self" or kind == "perturbed" or kind.startswith("probe:none"):
+            typed.append(S.tenc(y))
+            impl.append({"typed": True, "ok": ob["hy"][0] == "ok"})
+            subs.append({"cls": cls, "x": dy, "y": None, "attr": attr, "kind": "hash"})
+            ctx.tag("hash:well-typed")
+    if only is None:
+        for _ in range(3):
+            p = S.ill_typed(ctx.rng, dx)
+            if p is None:
+                break
+            dz, pname, pi = p
+            z = try_build(dz)
+            if z is None:
+                continue
+            t = call(S.tenc, z)
+            if t[0] != "ok":
+                continue
+            h = call(hash, z)
+            typed.append(t[1])
+            impl.append({"typed": None, "ok": h[0] == "ok"})
+            subs.append({"cls": cls, "x": dz, "y": None, "attr": pname, "kind": "hash-probe"})
+            ctx.tag("illtyped:completes" if h[0] == "ok" else "illtyped:raises")
+    elif only.get("kind") == "hash-probe":
+        t = call(S.tenc, x)
+        if t[0] == "ok":
+            typed, impl, subs = [t[1]], [{"typed": None, "ok": call(hash, x)[0] == "ok"}], [{"cls": cls, "x": dx, "kind": "hash-probe"}]
+    for t, im, sub, mv in zip(typed, impl, subs, model_hash_ok(ctx, typed)):
+        mdl = {"typed": mv["typed"] if im["typed"] is not None else None, "ok": mv["ok"]}
+        ctx.compare(sub, im, mdl, f"{cls} {sub.get('attr') or ''}: hash() completes / instance well-typed vs CR.EqHash.hashCompletes / wellTyped")
 
 
 def check_tables(ctx):
@@ -256,21 +323,48 @@ def check_tables(ctx):
 
 
 def check_signatures(ctx):
-    """every constructor parameter of every class is a row of the model's table (a new parameter must not slip past __eq__)"""
+    """the constructor signatures of the working tree against the model's `ctors` (the list `C12_ctor_params_compared` is
+    about), the generator specs against both, and the getter lists against the model's rows"""
+    import dataclasses
     tb = tables(ctx)
     R = S.registry()
+    model = {c["cls"]: c for c in ctors(ctx)}
+    ctx.compare({"what": "classes"}, sorted(S.SPECS), sorted(model), "classes with a generator spec vs classes in the model's ctors")
     for cls, spec in S.SPECS.items():
-        if spec.family == "State" or cls in ("SignalState",):
-            continue
-        sig = [p for p in inspect.signature(R[cls].__init__).parameters if p not in ("self", "kwargs")]
-        mine = [p.name for p in spec.params if p.name in sig]
-        extra = ["lanelets", "intersections", "traffic_signs", "traffic_lights", "areas"] if cls == "LaneletNetwork" else \
-            ["lanelet_network", "static_obstacles", "dynamic_obstacles", "environment_obstacle", "phantom_obstacle"] if cls == "Scenario" else []
-        ctx.compare({"cls": cls}, sig + extra, mine + extra, f"constructor parameters of {cls} vs generator spec")
-        if spec.family in tb:
-            ctx.compare({"cls": cls}, [p.getter for p in spec.params], tb[spec.family]["attrs"], f"attributes of {cls} vs model table")
+        C = R[cls]
+        if spec.family == "State":
+            sig = [] if cls == "CustomState" else [f.name for f in dataclasses.fields(C)]
+        elif cls == "SignalState":
+            sig = list(C.__slots__)
         else:
-            ctx.compare({"cls": cls}, "class", "no model table", f"{cls} has no table in the model")
+            sig = [p for p in inspect.signature(C.__init__).parameters if p not in ("self", "kwargs")]
+        m = model.get(cls)
+        if m is None:
+            continue
+        # oracle for a constructor parameter the generators do not know (added to the code after this check was written):
+        # two instances that differ only in it must be unequal
+        for q in [p for p in sig if p not in {pp.name for pp in spec.params}] if spec.family != "State" and cls != "SignalState" else []:
+            for v1, v2 in ((1, 2), ("a", "b"), (True, False), (0.5, 1.5), (None, "a")):
+                dx = S.gen_obj(ctx.rng, cls)
+                dy = copy.deepcopy(dx)
+                dx["args"][q], dy["args"][q] = v1, v2
+                x, y = try_build(dx), try_build(dy)
+                if x is None or y is None:
+                    continue
+                ob = observe(x, y)
+                oracle_pair(ctx, cls, dx, dy, x, y, ob, "perturbed", q, "unequal")
+                break
+        ctx.compare({"cls": cls}, {"family": spec.family, "params": sig}, {"family": m["family"], "params": [p for p, _ in m["params"]]},
+                    f"inspect.signature({cls}) vs model ctors")
+        if spec.family == "State":
+            continue
+        getter = {p.name: p.getter for p in spec.params}
+        ctx.compare({"cls": cls}, [[p, getter.get(p)] for p in sig], m["params"], f"parameter -> getter of {cls}: generator spec vs model ctors")
+        row = tb[spec.family]
+        ctx.compare({"cls": cls}, [p.getter for p in spec.params], row["attrs"], f"attributes of {cls} vs model row")
+        ctx.compare({"cls": cls}, row["attrs"], row["hattrs"], f"eq row vs hash row of {cls}")
+        ctx.compare({"cls": cls}, [a for _, a in m["params"]] + row["content"], row["attrs"],
+                    f"constructor parameters + content attributes of {cls} vs model row")
 
 
 # ------------------------------------------------------------------------------------------------ entry points
